@@ -131,7 +131,8 @@ def run(ctx):
     n = (450 if ctx.quick else 3000) * (3 if ctx.search else 1)
     for _ in range(n):
         if rng.random() < 0.5:
-            a, o, t = valid_configurator(rng, ctx.quick)
+            # configurators, a third of them with items listed directly under the configurator (in no rule)
+            a, o, t = valid_configurator(rng, ctx.quick, top_items=True)
         else:
             a, o, t = gen_valid(rng, ctx.quick, wide_p=0.0)
             if not free01(t): continue
